@@ -34,6 +34,24 @@ Proof. vm_compute. reflexivity. Qed.
 Definition caching_rows : list string := map u_type (filter u_succs_cached user_rows).
 Theorem succs_cached : List.length caching_rows = 9.
 Proof. vm_compute. reflexivity. Qed.
+(* the paths Succs() reads, in the order it appends them (range variables by their name), against the
+   reviewed order of the label operands in the assembly syntax of each terminator:
+   br T | br c, T, F | switch x, D [cases] | indirectbr a, [targets] | invoke .. to N unwind E |
+   callbr .. to N [others] | catchswitch within p [handlers] unwind U | catchret .. to T | cleanupret .. unwind U *)
+Definition succ_rows : list (string * list string) :=
+  map (fun r => (u_type r, u_succs r)) (filter (fun r => match u_succs r with [] => false | _ => true end) user_rows).
+Definition succ_order_reviewed : list (string * list string) :=
+  [("TermBr", ["Target"]);
+   ("TermCallBr", ["NormalRetTarget"; "otherRetTarget"]);
+   ("TermCatchRet", ["Target"]);
+   ("TermCatchSwitch", ["handler"; "DefaultUnwindTarget"]);
+   ("TermCleanupRet", ["UnwindTarget"]);
+   ("TermCondBr", ["TargetTrue"; "TargetFalse"]);
+   ("TermIndirectBr", ["target"]);
+   ("TermInvoke", ["NormalRetTarget"; "ExceptionRetTarget"]);
+   ("TermSwitch", ["TargetDefault"; "c.Target"])].
+Theorem succs_in_target_order : succ_rows = succ_order_reviewed.
+Proof. vm_compute. reflexivity. Qed.
 Theorem number_of_user_types : List.length user_rows = 66.
 Proof. vm_compute. reflexivity. Qed.
 
